@@ -68,7 +68,7 @@ def run(ctx):
                 R.ob('C04.abort', ('server table aborting removal', 'drops the removed entry\'s timer'), ok, 'the timer removed is the one armed for that entry', [g.loc(t)])
             if callee_is(t, 'AbortHandle::abort', 'DelayQueue::remove', 'DelayQueue::clear', 'HashMap::insert', 'HashMap::clear', 'util::Compact::compact'):
                 sites_ = own_sites(F, T, m, g, bb)     # an effect inside a helper is judged where the aborting removal calls that helper
-                R.ob('C04.abort', ('server table aborting removal', 'miss has no effect', t['callee'].split('::')[-1]), bool(sites_) and all(guarded_by_variant(F, P, g2, b2, rm, ['Some', 'Continue']) for g2, b2 in sites_),
+                R.ob('C04.abort', ('server table aborting removal', 'miss has no effect', t['callee'].split('::')[-1]), bool(guarded_by_variant(F, P, g, bb, rm, ['Some', 'Continue'])) or (bool(sites_) and all(guarded_by_variant(F, P, g2, b2, rm, ['Some', 'Continue']) for g2, b2 in sites_)),
                      'every effect of the aborting removal is on the hit edge; cancelling an unknown or finished id does nothing', [g.loc(t)])
     # any other mutation of the table's own state (a call taking &mut of a field of self) is on the hit edge as well
     for g in T.bodies(m):
@@ -151,23 +151,8 @@ def run(ctx):
         R.ob('C04.abortable', ('Requests stream', 'registration stays with its request'), ok, 'an InFlightRequest holds the registration of the tracked request it wraps', [g.loc(s)])
 
     # (4) responses only for tracked ids
-    ss = S.start_send
-    plain_kp = S.key_param(S.plain)
-    tsend = [(bb, t) for bb, t in ss.calls() if callee_is(t, 'Sink::start_send') and 'Fuse<' in (t.get('self_ty') or '')]
-    rms = [(bb, t) for bb, t in ss.calls() if F.callee_fn(t) is S.plain]
-    R.ob('C04.tracked', ('<BaseChannel as Sink>::start_send', 'one removal, one transport write'), len(tsend) == 1 and len(rms) == 1,
-         'sending a response untracks the request and writes once', [ss.loc(t) for _, t in tsend + rms] or [ss.loc(ss.d)])
-    if len(tsend) == 1 and len(rms) == 1:
-        (sb, st_), (rb, rt) = tsend[0], rms[0]
-        kr = P.root(P.operand(ss, rt['args'][plain_kp - 1], at=rb))
-        ok = bool(kr) and all(r == ('param', ss.id, 2) and P.fpath(p) == ('request_id',) for r, p in kr)
-        R.ob('C04.tracked', ('<BaseChannel as Sink>::start_send', 'untracks the response\'s id'), ok, 'the removal is keyed by response.request_id', [ss.loc(rt)])
-        pred = lambda x: result_of(P, x, ('call', ss.id, rb))
-        R.ob('C04.tracked', ('<BaseChannel as Sink>::start_send', 'writes only on the hit edge'), bool(guarded_by_variant(F, P, ss, sb, pred, ['Some', 'Continue'])),
-             'a response reaches the transport only if its request was still tracked (not cancelled, expired or already answered)', [ss.loc(st_)])
-        ir = P.root(P.operand(ss, st_['args'][1], at=sb))
-        R.ob('C04.tracked', ('<BaseChannel as Sink>::start_send', 'writes the response it was given'), bool(ir) and all(r == ('param', ss.id, 2) and not norm_path(p) for r, p in ir),
-             'the item written is the response passed in', [ss.loc(st_)])
+    from .server_common import tracked_gate
+    tracked_gate(ctx, 'C04.tracked', S)
     # source coverage while blocked (E-SHAPE): known finding D5 for limiter chains
     coverage(ctx, 'C04.cover', ('K', 'T', 'R'))
     # cascade: a Cancel written by an aborted handler's client is flushed before that dispatch goes idle (C14.flush on the client)
